@@ -43,13 +43,15 @@ class Model(object):
 
     def scope(self, kind, parent, top=None):
         """A scope object initialised by supp's own Scope.__init__ (interpreted)."""
+        if kind == 'SourceScope':
+            o = self.new('SourceScope', Unknown('source'))      # supp's own __init__ creates the bookkeeping containers
+            o.attrs['parent'] = parent
+            return o
         o = Obj(self.cls(kind), {}, kind)
         init = self.cls('Scope').methods.get('__init__')
         if init is None:
             raise AnalysisError('Scope.__init__ vanished')
         self.it.call(FuncVal(init.rel, init.node, None, o, init.cls), [parent, top or o], {})
-        if kind == 'SourceScope':
-            o.attrs['_global_names'] = {}
         return o
 
     def flow(self, hint, scope, parents=None):
